@@ -209,6 +209,7 @@ def judge_refusal(ctx, case):
 
 
 def canaries(ctx):
+    ctx.repo_tests_under_monitors(('C02',))       # second, independent workload for the same oracle
     cfg = msgwork.cfg_of('packaged')
     good = ref.encode({'MTI': '1240', 'DE3': 'AB'}, cfg)
     ctx.canary('reference pads fixed text on the right', good[20:] == b'AB    ')
